@@ -330,7 +330,13 @@ Error CodeHolder::attach(BaseEmitter* emitter) noexcept {
   }
 
   // Reserve the space now as we cannot fail after `on_attach()` succeeded.
-  ASMJIT_PROPAGATE(emitter->on_attach(*this));
+  Error err = emitter->on_attach(*this);
+  if (ASMJIT_UNLIKELY(err != Error::kOk)) {
+    // A failed `on_attach()` has already rolled back through `on_detach()`; the emitter must not keep pointing to this
+    // CodeHolder (a later `attach()` would return success without attaching it).
+    emitter->_code = nullptr;
+    return err;
+  }
 
   // Make sure CodeHolder <-> BaseEmitter are connected.
   ASMJIT_ASSERT(emitter->_code == this);
